@@ -183,7 +183,17 @@ def rule_prop(ctx, tu):
         from .. import ir as ir_
         ir_.Engine(cl, "must").run(ir_.cx_to_ir(f.body))
         suff = ("%s <= %s" % (sub_t, x_t), True)
-        ctx.need(len(prod_facts) == 1, R, "%s: product accumulation not found" % f.qual)
+        ctx.need(len(prod_facts) >= 1, R, "%s: product accumulation not found" % f.qual)
+        if len(prod_facts) > 1:
+            # several accumulation forms: each factor of the propensity must be the falling factorial one; anything else (a power of
+            # the amount, a different form under some flag) makes the propensity something else than the number of combinations
+            for mul_, pf_ in prod_facts:
+                ctx.check(cxa.canon(mul_.rhs).startswith("(" + x_t + " - "), R, mul_.node, f.qual, text(mul_.node)[:80],
+                          "a factor (x - q) of the falling factorial", "the propensity also accumulates `%s`, which is not a factor "
+                          "(x - q) of the falling factorial: for some entries it is not the number of distinct reactant "
+                          "combinations" % text(mul_.rhs)[:60])
+            prod_facts = [pp for pp in prod_facts if cxa.canon(pp[0].rhs).startswith("(" + x_t + " - ")]
+            ctx.need(prod_facts, R, "%s: no falling-factorial accumulation" % f.qual)
         mul, pf = prod_facts[0]
         ctx.check(suff in pf, R, mul.node, f.qual, text(mul.node), "multiplied only where species s has enough molecules "
                   "(x >= sub[s, r])", "the combinatorial factor is accumulated without the sufficiency test on the amount of "
